@@ -611,6 +611,7 @@ func main() {
 	}
 	runEveryByte()
 	runEveryRune()
+	runDigitPositions()
 	runDMHintRuns()
 	runHugeCanvases()
 	runShortStrings()
